@@ -328,8 +328,9 @@ def run(ctx):
         everything = lambda s, p, d, f: True  # noqa: E731
         msg_cases += run_msg(ctx, clock, dyn, faults, full, everything)
         msg_cases += run_msg(ctx, clock, principal, faults, others, everything)
-        traces += run_svc(ctx, clock, coupled, faults, everything)
-        traces += run_svc(ctx, clock, [s for s in H.SETTINGS if s not in coupled], faults, main_delivery)
+        traces += run_svc(ctx, clock, [s for s in coupled if s["reg"] == "dynamic"], faults, everything)
+        traces += run_svc(ctx, clock, [s for s in H.SETTINGS if not (s in coupled and s["reg"] == "dynamic")], faults,
+                          main_delivery)
     # ---- random fault pairs
     npairs = 120 if ctx.quick else 600
     pair_faults = {p: random_pairs(rng, faults[p], npairs) for p in H.PATHS}
@@ -342,9 +343,9 @@ def run(ctx):
                   diag="run_resp_case")
     H.check_cases(ctx, H.TRACE_IMPORTS, H.TRACE_TYPE, "chk_trace", traces, shard=150, label="svc",
                   diag="first_bad_step")
-    if not ctx.quick:
-        count_unmodelled(ctx, H.RESP_IMPORTS, H.RESP_TYPE, "unmodelled_resp_case", msg_cases, "msg")
-        count_unmodelled(ctx, H.TRACE_IMPORTS, H.TRACE_TYPE, "chk_modelled", traces, "svc")
+    if not ctx.quick:   # evidence only: how much of a sample the model itself places outside its fragment
+        count_unmodelled(ctx, H.RESP_IMPORTS, H.RESP_TYPE, "unmodelled_resp_case", msg_cases[:1600], "msg")
+        count_unmodelled(ctx, H.TRACE_IMPORTS, H.TRACE_TYPE, "chk_modelled", traces[:800], "svc")
 
 
 def replay(ctx, rp):
